@@ -147,7 +147,7 @@ End RouterThms.
 
 (* ---- the oracle accepts the model's own answer *)
 Lemma value_eqb_refl v : value_eqb v v = true.
-Proof. destruct v; simpl; [apply str_eqb_refl | apply Z.eqb_refl]. Qed.
+Proof. destruct v; simpl; [apply str_eqb_refl | apply Z.eqb_refl | apply str_eqb_refl]. Qed.
 
 Lemma params_same_refl p : params_same p p = true.
 Proof.
